@@ -347,6 +347,10 @@ def run(prop, tier, extra=None):
     # code -> spec on the repository's own tests (DESIGN.md 4.5): the calls
     # its tests make, validated for this property's clauses
     suite.run_suite(out, tier, c['enforce'], c['prop'], recorded=rec_wait())
+    if prop == 'C01':
+        # interpolation along a dimension with an N-D coordinate variable
+        import c17
+        c17.run_nd_structure(out, rnd, tier)
     if prop == 'C02':
         # the IOAPI wrapper's data path: TFLAG under selections of the time axis
         import ioapi_driver
